@@ -741,8 +741,8 @@ Lemma keyed_pair_set c r e :
   kfind wkey (ekey e) (apply_keyed ekey wkey inj c [e; r]) = Some (inj e).
 Proof.
   intros Hr Hm Hk. split; rewrite kfind_apply_keyed; unfold r_dels, r_mods, r_adds; cbn [filter]; rewrite Hr, marked_mark, Hm;
-    cbn [negb map smem existsb filter]; rewrite Hm; cbn [negb map smem existsb]; rewrite !String.eqb_refl;
-    cbn [orb negb andb kfind]; rewrite ?andb_false_r; cbn [kfind map]; rewrite Hk, String.eqb_refl; reflexivity.
+    cbn [negb map smem existsb filter app]; rewrite ?rawkey_mark, ?String.eqb_refl; cbn [orb negb andb kfind map];
+    rewrite andb_false_r, Hk, String.eqb_refl; reflexivity.
 Qed.
 End KeyedOne.
 
@@ -778,7 +778,7 @@ Proof.
       rewrite Hl. unfold rop_writes_to. rewrite Hw. destruct (sfield_eqb_spec g f); [contradiction|].
       apply opt_eqb_refl. exact sval_eqb_refl.
   - destruct r; try discriminate; unfold apply_adj, build_adj;
-      cbn [c_res fold_left apply_bop adj_with_res a_res adj_empty apply_rop res_with_hp res_with_uni res_empty apply_res r_hp r_uni app fold_left fst snd].
+      cbn [c_res fold_left apply_bop adj_with_res a_res adj_empty apply_rop res_with_hp res_with_uni res_empty apply_res r_hp r_uni app fold_left fst snd aset].
     + rewrite rev_app_distr. cbn [rev app kfind fst]. rewrite String.eqb_refl. cbn [opt_eqb fst snd]. rewrite String.eqb_refl, Z.eqb_refl. reflexivity.
     + rewrite alookup_aset_same. cbn [opt_eqb]. apply String.eqb_refl.
 Qed.
